@@ -476,11 +476,12 @@ class Balancer:
             new_left = inner
             new_right = claripy.Concat(claripy.BVV(0, len(left_msb)), truism.args[1], claripy.BVV(0, len(left_lsb)))
             return Bool(truism.op, (new_left, new_right))
-        if left_msb_zero:
+        # dropping the Extract on one side only works if there are no (unknown) bits on the other side
+        if left_msb_zero and low == 0:
             new_left = inner
             new_right = claripy.Concat(claripy.BVV(0, len(left_msb)), truism.args[1])
             return Bool(truism.op, (new_left, new_right))
-        if left_lsb_zero:
+        if left_lsb_zero and high == inner_size - 1:
             new_left = inner
             new_right = claripy.Concat(truism.args[1], claripy.BVV(0, len(left_lsb)))
             return Bool(truism.op, (new_left, new_right))
